@@ -489,10 +489,15 @@ func makeGenbankOriginParser(length int) genbankSubparser {
 			}
 			pars.Line(state, result)
 
+			// From here on a failure is final for the record: an ORIGIN block
+			// that does not hold what the LOCUS line declares must not be
+			// re-read as an unknown field and skipped.
 			if length < 0 || toOriginLength(length) < length {
+				state.Clear()
 				return pars.NewError("sequence length out of range", state.Position())
 			}
 			if err := state.Request(toOriginLength(length)); err != nil {
+				state.Clear()
 				return pars.NewError("not enough bytes in state", state.Position())
 			}
 
@@ -502,6 +507,7 @@ func makeGenbankOriginParser(length int) genbankSubparser {
 			} else {
 				parser := slowGenBankOriginParser(length)
 				if err := parser(state, result); err != nil {
+					state.Clear()
 					return err
 				}
 				p = result.Token
